@@ -108,6 +108,10 @@ def _implied_timescales(tmat, lagtime, ntimescales):
     eigenvalues = linalg.left_eigenvalues(tmat, nvals=ntimescales + 1)
     # for negative eigenvalues no timescale is defined
     eigenvalues[eigenvalues < 0] = np.nan
+    # rounding can lift an eigenvalue 1 of a reducible model slightly above 1,
+    # its logarithm is then a tiny positive number and the timescale hugely
+    # negative; an eigenvalue 1 has no finite timescale (masked below)
+    eigenvalues[eigenvalues > 1] = 1
     return np.ma.divide(
         - lagtime, np.log(eigenvalues[1:]),
     ).filled(np.nan)
